@@ -32,10 +32,14 @@ type Case struct {
 	Loss       string   `json:"loss"`              // none | cut-idle | cut-mid-transfer | server-close
 	Delay      string   `json:"delay"`             // 0 | 1s | 31s | 5m
 	Refused    int      `json:"refused,omitempty"` // local connections for a channel the server does not have, made before / between the others
+	// Overlap > 0: the local connections are issued one by one, each at quiescence, while the
+	// Overlap-th write of the server's carrier end (an answer of the session handshake) is held:
+	// the later ones arrive while the first one is still inside dial + handshake
+	Overlap int `json:"overlap,omitempty"`
 }
 
 func (c Case) String() string {
-	return fmt.Sprintf("upstreams=[%s] mustSecure=%v concurrent=%d loss=%s delay=%s refusedChannelRequests=%d", strings.Join(c.List, ","), c.MustSecure, c.Concurrent, c.Loss, c.Delay, c.Refused)
+	return fmt.Sprintf("upstreams=[%s] mustSecure=%v concurrent=%d loss=%s delay=%s refusedChannelRequests=%d overlapHold=%d", strings.Join(c.List, ","), c.MustSecure, c.Concurrent, c.Loss, c.Delay, c.Refused, c.Overlap)
 }
 
 // scripted is an upstream whose peer misbehaves.
@@ -120,10 +124,14 @@ func execute(t *testing.T, c Case) (kind, detail string) {
 	res := bubble.Run(t, func() {
 		var members []member
 		var list []upstream.Upstream
+		var releases []func()
 		for _, k := range c.List {
 			switch k {
 			case "ok", "insecure":
 				o := world.Options{Carrier: "stream", Channels: []string{"x"}, Keep: true}
+				if c.Overlap > 0 {
+					o.OnDial = func(_, sv *netsim.MemConn) { releases = append(releases, sv.HoldWriteReturn(c.Overlap)) }
+				}
 				if k == "ok" {
 					o.ServerCert, o.ClientKnowsCA = "good", true // StartTLS -> secure session
 				}
@@ -164,9 +172,24 @@ func execute(t *testing.T, c Case) (kind, detail string) {
 		}
 		for i := 0; i < c.Concurrent; i++ {
 			apps = append(apps, host.OpenAppVia(ups, "x", nil))
+			if c.Overlap > 0 {
+				bubble.Wait()
+			}
 		}
 		bubble.Wait()
-		bubble.Advance(10 * time.Minute) // the bounded time within which a non-answering upstream must be abandoned
+		if c.Overlap > 0 {
+			// a held answer is released once every local connection has been issued; upstreams
+			// dialled later (after a failover) are released as they appear
+			for i := 0; i < 60; i++ {
+				for _, rel := range releases {
+					rel()
+				}
+				bubble.Wait()
+				bubble.Advance(10 * time.Second)
+			}
+		} else {
+			bubble.Advance(10 * time.Minute)
+		} // the bounded time within which a non-answering upstream must be abandoned
 		describe := func() string {
 			var d []string
 			for i, m := range members {
@@ -307,6 +330,16 @@ func cases(thorough bool) []Case {
 	}
 	rec(nil)
 	var out []Case
+	// local connections that arrive while an earlier one is still inside dial + handshake
+	for _, l := range [][]string{{"ok"}, {"refuses", "ok"}, {"insecure"}, {"silent", "ok"}, {"503", "insecure"}} {
+		for _, ms := range []bool{false, true} {
+			for _, conc := range []int{2, 3} {
+				for hold := 1; hold <= 4; hold++ {
+					out = append(out, Case{List: l, MustSecure: ms, Concurrent: conc, Loss: "none", Overlap: hold})
+				}
+			}
+		}
+	}
 	for _, l := range lists {
 		for _, ms := range []bool{false, true} {
 			for _, conc := range []int{1, 2, 3} {
@@ -344,6 +377,9 @@ func record(r *mc.Run, c Case, kind, detail string) {
 		r.Nontrivial(mc.Hash(c.String()))
 	}
 	if kind != "" {
+		if c.Overlap > 0 {
+			kind += "|overlapping-connects" // deterministic overlap: its own fingerprint (and replay)
+		}
 		r.Fail(kind, fmt.Sprintf("%s: %s", c, detail), len(c.List)*10+c.Concurrent, c)
 	}
 }
@@ -373,7 +409,7 @@ func TestCheck(t *testing.T) {
 			break
 		}
 		var kind, detail string
-		r.Guard(idx, 60*time.Second, "hang", c.String(), c, func() {
+		r.Guard(idx, 10*time.Second, "hang", c.String(), c, func() {
 			kind, detail = execute(t, c)
 		})
 		record(r, c, kind, detail)
